@@ -53,7 +53,7 @@ use smartcore::tree::decision_tree_classifier::{DecisionTreeClassifier, Decision
 use smartcore::tree::decision_tree_regressor::{DecisionTreeRegressor, DecisionTreeRegressorParameters};
 
 /// float widths under test
-pub trait Num: RealNumber + Serialize + DeserializeOwned + 'static {}
+pub trait Num: RealNumber + Serialize + DeserializeOwned + Default + 'static {}
 impl Num for f32 {}
 impl Num for f64 {}
 
